@@ -42,6 +42,14 @@ class ProgWP(LinWP):
         self.env[key] = self.const(name, 'Real', 'double')
         return self.env[key]
 
+    this_prefix = 'self.'
+
+    def member_name(self, n):
+        base = unwrap(n['inner'][0])
+        if base.get('kind') == 'CXXThisExpr':
+            return self.this_prefix + n['name']          # `this` of a getter walked in place is the object it was called on
+        return super().member_name(n)
+
     def read_stored(self, key, v):
         r = super().read_stored(key, v)
         if isinstance(r, MV) and isinstance(v, MV):
@@ -76,6 +84,13 @@ class ProgWP(LinWP):
             r = MV([row[c0:c0 + nc] for row in M.m[r0:r0 + nr]], M.deps)
             r.cols = nc
             return r
+        if name == 'asDiagonal' and not args:
+            o = self.ev(obj)
+            if isinstance(o, AV):
+                if 'DiagonalWrapper' not in type_str(n):
+                    raise Unsupported(f'{self.name}: asDiagonal() whose result type is not Eigen::DiagonalWrapper')
+                k = len(o.c)
+                return MV([[o.c[i] if i == j else '0.0' for j in range(k)] for i in range(k)], o.deps)
         if name == 'col' and len(args) == 1:
             o = self.ev(obj)
             if isinstance(o, MV):
@@ -113,7 +128,7 @@ class ProgWP(LinWP):
             if blk is not None:
                 return self.write_block(n, blk, args[1])
             lhs = unwrap(args[0])
-            if lhs.get('kind') in ('DeclRefExpr', 'MemberExpr') and 'tensor_vector_storage_t' in type_str(lhs):
+            if lhs.get('kind') in ('DeclRefExpr', 'MemberExpr') and type_str(lhs).startswith('nano::tensor_t<nano::tensor_vector_storage_t'):
                 # assignment to an OWNING tensor (matrix_t / vector_t) itself, not through a view: the tensor takes the shape of the value
                 key = self.lkey(lhs)
                 old = self.env.get(key)
@@ -211,7 +226,7 @@ class ProgWP(LinWP):
 
     def decl_hook(self, wp, v, init):
         """`auto Ab = stack(..)` / `vector_t x = ..`: a local that OWNS its coefficients is a stored tensor of its own (a copy of the value)"""
-        if init and 'tensor_vector_storage_t' in type_str(v) and not type_str(v).rstrip().endswith('&'):
+        if init and type_str(v).startswith('nano::tensor_t<nano::tensor_vector_storage_t') and not v['type']['qualType'].rstrip().endswith('&'):
             val = self.ev(init[0])
             if isinstance(val, MV):
                 self.env[v['name']] = MV(val.m)
